@@ -28,7 +28,7 @@ ASSUMPTIONS = ["LP64: char 8, short 16, int 32, long/long long 64 bits (theorems
                "operands of one binary operation have the same C type (or one is an integer literal)"]
 
 # set to True once the proposed fix C04-unary_neg_unchecked is applied to the tree
-NEG_CHECKED = False or os.environ.get("C04_NEG_CHECKED") == "1"   # (env override: trying the fix in a worktree)
+NEG_CHECKED = os.environ.get("C04_NEG_CHECKED", "1") == "1"   # (env override: trying the fix in a worktree)
 
 # (ctype, name, width, signed)
 TYPES = [("signed char", "schar", 8, True), ("short", "short", 16, True), ("int", "int", 32, True),
